@@ -28,6 +28,11 @@ CHECKS = {
     text="TLC enumerates working lists of up to 3 cells built from a cell and its relatives (with multiplicity, the world cell, ancestors together with descendants) and every target around the finest member, including too-coarse targets; random deep lists to resolution 29 are added; each is replayed on uncompact and judged block by block (block i as a set = Desc(cell i, t), sizes, level, parent-of-output, argument unchanged, raises when a member is finer than t).",
     note="Trusted: TLC, JSON bridge, driver. Expansion factor bounded (<= 300 / 1100 outputs per TLC request, <= 4^5 per random member).",
     ref="DESIGN.md section 5 C10"),
+ "C18": dict(
+    technique="TLA+ transcription of the Hilbert digit automaton (A5Hilbert) model-checked by TLC (MC_Hilbert: round trip, inside-triangle, prefix distance, sibling distinctness on every digit string); every state replayed on s_to_anchor / pentagon centre / ij_to_s; real values judged by TLC trace spec Trace_Hilbert",
+    text="Exhaustive for levels 1..6 (quick) / 1..7 (thorough) in all six orientations: TLC enumerates every digit string, checks the laws on the transcribed automaton, and every state is replayed on the real code; TLC then judges on the real anchors, quantised real centres and real indices: round trip (tuple and reused list argument), centre strictly inside the segment triangle, child centre within 0.46 parent-lattice units of the parent's centre (integer quadratic form), and per (orientation, level) that the 4^h real centres sit in pairwise distinct unit triangles that fill the triangle. Levels up to 28 by digit patterns (d000.., d333.., alternating, top/bottom digit only) and random strings.",
+    note="Trusted: TLC, JSON bridge, driver; centres are quantised to 1e-4 lattice units (every centre is >= 0.14 units from the lines it is compared with). Model/code disagreement alone is drift, verdicts come from the C18.* clauses on real values.",
+    ref="DESIGN.md section 5 C18"),
  "C19": dict(
     technique="TLA+ generator/model MC_Hex (lane counter) model-checked by TLC for the text-form design; generated values replayed on u64_to_hex/hex_to_u64; outputs judged by TLC trace spec Trace_Hex",
     text="TLC generates the 16-bit lane counter values (other lanes all-zero/all-one; every 16th value quick, all 65,536 per lane thorough) and checks the design of the text form; each value, plus single-bit, boundary, cell-id-shaped and random values, goes through the real functions in lower, upper and zero-padded (16/17/18/20/32 digit) forms and TLC judges canonical form, round trip and parsing clauses.",
